@@ -90,7 +90,20 @@ def main():
         claimed = [c["property_id"] for c in m["checks"]]
     with ThreadPoolExecutor(max_workers=8) as ex:
         res = list(ex.map(lambda s: one(s, run_tests, claimed), seeds))
+    refactor = "--refactor" in sys.argv
     for r in res:
+        if refactor:
+            valid = r.get("demo_clean") == 0 and r.get("applies") and r.get("demo_patched", 1) == 0 and \
+                (not run_tests or "81 passed" in r.get("tests", ""))
+            r["valid"] = bool(valid)
+            ex = {p: c["exit"] for p, c in (r.get("checks") or {}).items()}
+            tag = "silent" if all(v == 0 for v in ex.values()) else ("FALSE-ALARM" if 1 in ex.values() else "unresolved(exit 2)")
+            print(f"{os.path.relpath(r['seed'], root):<12} prop={r['property']} valid={valid} demo={r.get('demo_clean')}/{r.get('demo_patched')} "
+                  f"tests={r.get('tests', '-')[:12]!r} -> {tag} {ex}")
+            for p, c in (r.get("checks") or {}).items():
+                for l in c["lines"][:3]:
+                    print(f"      [{p} exit={c['exit']}] {l[:260]}")
+            continue
         valid = r.get("demo_clean") == 0 and r.get("applies") and r.get("demo_patched", 0) != 0 and \
             (not run_tests or "81 passed" in r.get("tests", ""))
         r["valid"] = bool(valid)
